@@ -97,6 +97,12 @@ var c12Sources = []*tnode{
 	group("R", "struct", group("H", "ptrstruct", group("G", "ptrstruct", leaf("V", "int32"), leaf("W", "string")), leaf("K", "int32")), leaf("Z", "int32")),
 	group("R", "struct", group("M", "slicestruct", group("N", "slicestruct", leaf("Q", "int32"), leaf("P", "string")), leaf("E", "int32")), leaf("Z", "int32")),
 	group("R", "struct", leaf("A", "int32"), leaf("LL", "list32"), group("G", "struct", leaf("X", "int32"), leaf("L2", "slice32"))),
+	// groups without a required direct leaf: the only templates for the levels
+	// of an added column are optional leaves, a repeated leaf, or a sub-group
+	group("R", "struct", group("OG", "ptrstruct", leaf("A", "ptrint64"), leaf("B", "ptrstring")), leaf("Z", "int32")),
+	group("R", "struct", group("LG", "ptrstruct", leaf("L", "slice32")), leaf("Z", "int32")),
+	group("R", "struct", group("GG", "ptrstruct", group("In", "struct", leaf("X", "int32"))), leaf("Z", "int32")),
+	group("R", "struct", group("SO", "slicestruct", leaf("A", "ptrint64"), leaf("N", "slice32")), leaf("Z", "int32")),
 }
 
 // structs lists every struct-like node of the tree (root included).
@@ -149,6 +155,15 @@ func c12Edits(root *tnode) []c12Edit {
 		}
 		for _, a := range adds {
 			a := a
+			dup := false
+			for _, f := range s.fields {
+				if f.name == a.name {
+					dup = true // already added by an earlier edit
+				}
+			}
+			if dup {
+				continue
+			}
 			for _, pos := range []int{0, len(s.fields)} {
 				pos := pos
 				first := "first"
